@@ -3,6 +3,9 @@ use vergen::{ConstantsFlags, generate_cargo_keys};
 
 fn main()
 {
+    // Verification hook guard: declare the cfg name so that it is not reported as unexpected.
+    println!("cargo:rustc-check-cfg=cfg(hlorenzi_customasm_verif)");
+
     let mut flags = ConstantsFlags::empty();
     flags.toggle(ConstantsFlags::REBUILD_ON_HEAD_CHANGE);
     flags.toggle(ConstantsFlags::SEMVER_LIGHTWEIGHT);
